@@ -1,60 +1,18 @@
 /-
-  Lemmas.C03Names — `GoodName` for the concrete graph names used in the non-vacuity examples,
-  by unrolling `String.splitOn` on the literal (the general statement for every dot-free name is
-  not proved; see `GoodName`).
+  Lemmas.C03Names — `addGraph` never needs a side condition: the string fact the refinement uses
+  (`GoodName`: the first dot-component of a graph's label fields is the graph name) is proved for
+  every valid name in `C03Defs.goodName_of_valid`; what is left here is the rewriting lemma the
+  non-vacuity examples use to step over an `addGraph` in `NoReaddHist`.
 -/
 import GripProofs.Lemmas.C03Defs
 
 namespace Grip.Props.C03.Lemmas
-open Grip Grip.C03 Grip.Props.C03
+open Grip Grip.C03 Grip.C03.Spec
 
-theorem split_g1v : "g1.v.label".splitOn "." = ["g1", "v", "label"] := by
-  unfold String.splitOn
-  simp only [String.reduceBEq, Bool.false_eq_true, ↓reduceIte]
-  iterate 11
-    rw [String.splitOnAux.eq_1]
-    simp (decide := true) only [↓reduceIte]
-
-theorem split_g1e : "g1.e.label".splitOn "." = ["g1", "e", "label"] := by
-  unfold String.splitOn
-  simp only [String.reduceBEq, Bool.false_eq_true, ↓reduceIte]
-  iterate 11
-    rw [String.splitOnAux.eq_1]
-    simp (decide := true) only [↓reduceIte]
-
-theorem split_g2v : "g2.v.label".splitOn "." = ["g2", "v", "label"] := by
-  unfold String.splitOn
-  simp only [String.reduceBEq, Bool.false_eq_true, ↓reduceIte]
-  iterate 11
-    rw [String.splitOnAux.eq_1]
-    simp (decide := true) only [↓reduceIte]
-
-theorem split_g2e : "g2.e.label".splitOn "." = ["g2", "e", "label"] := by
-  unfold String.splitOn
-  simp only [String.reduceBEq, Bool.false_eq_true, ↓reduceIte]
-  iterate 11
-    rw [String.splitOnAux.eq_1]
-    simp (decide := true) only [↓reduceIte]
-
-theorem goodName_g1 : GoodName "g1" := by
-  have e1 : labelField "g1" "v" = "g1.v.label" := by decide
-  have e2 : labelField "g1" "e" = "g1.e.label" := by decide
-  unfold GoodName fieldGraph
-  rw [e1, e2, split_g1v, split_g1e]
-  exact ⟨rfl, rfl⟩
-
-theorem goodName_g2 : GoodName "g2" := by
-  have e1 : labelField "g2" "v" = "g2.v.label" := by decide
-  have e2 : labelField "g2" "e" = "g2.e.label" := by decide
-  unfold GoodName fieldGraph
-  rw [e1, e2, split_g2v, split_g2e]
-  exact ⟨rfl, rfl⟩
-
-theorem noReaddHist_addGraph {a : Spec.AG} {g : String} (hg : GoodName g) (os : List Op) :
+theorem noReaddHist_addGraph {a : Spec.AG} (g : String) (os : List Op) :
     NoReaddHist a (.addGraph g :: os) ↔ NoReaddHist (Spec.specStep a (.addGraph g)).1 os := by
   rw [noReaddHist_cons]
-  have : NoReadd a (.addGraph g) := by
-    simp [NoReadd, noReadd, (goodName_iff g).2 hg]
+  have : NoReadd a (.addGraph g) := by simp [NoReadd, noReadd]
   simp [this]
 
 end Grip.Props.C03.Lemmas
